@@ -307,7 +307,12 @@ func calleeName(info *types.Info, call *ast.CallExpr) string {
 		}
 		return f.Name()
 	}
-	return exprString(call.Fun)
+	// function-typed package variables (e.g. controller-runtime's webhook.Allowed aliases): last path segment
+	s := exprString(call.Fun)
+	if i := strings.LastIndexByte(s, '.'); i >= 0 && !strings.ContainsAny(s, "()[] ") {
+		return s[i+1:]
+	}
+	return s
 }
 
 func c04R2(c *Ctx) {
@@ -450,8 +455,7 @@ func c04R4(c *Ctx) {
 	fe := NewFactEngine(p, fn)
 	q.Prune = func(cond ast.Expr, takeTrue bool) bool {
 		// exemption: branch on which a prior record exists
-		s := fe.Cond(cond).String()
-		if strings.HasPrefix(s, "eq0(+1*len@0(") && strings.Contains(s, ".Resources)") {
+		if isPriorRecordTest(fe, cond) {
 			return !takeTrue
 		}
 		return false
@@ -474,10 +478,14 @@ func c04R4(c *Ctx) {
 	// deferred roll-back template; the prior-record exemption is the only extra guard allowed
 	exempt := map[string]bool{}
 	ast.Inspect(fn.Decl.Body, func(k ast.Node) bool {
-		if be, ok := k.(*ast.BinaryExpr); ok {
-			s := fe.Cond(be).String()
-			if strings.HasPrefix(s, "eq0(+1*len@0(") && strings.Contains(s, ".Resources)") {
-				exempt[s] = true
+		if be, ok := k.(*ast.BinaryExpr); ok && isPriorRecordTest(fe, be) {
+			am := map[string]bool{}
+			fe.Cond(be).atoms(am)
+			// len(rec.Resources) == 0  ⇔  !A(0) ∧ A(-1)
+			for a := range am {
+				if _, kk, ok := splitLt(a); ok {
+					exempt[a] = kk < 0
+				}
 			}
 		}
 		return true
@@ -617,4 +625,18 @@ func c04R5(c *Ctx) {
 		}
 	}
 	c.Floor("C04.R5", "eniMgr.Release calls in ReleaseIP / gcPods", 2, n)
+}
+
+// isPriorRecordTest: cond is `len(<record>.Resources) == 0` (no earlier ADD recorded the pod).
+func isPriorRecordTest(fe *FactEngine, cond ast.Expr) bool {
+	be, ok := ast.Unparen(cond).(*ast.BinaryExpr)
+	if !ok || be.Op != token.EQL {
+		return false
+	}
+	s := strings.ReplaceAll(exprString(be.X), " ", "")
+	if !strings.HasPrefix(s, "len(") || !strings.HasSuffix(s, ".Resources)") {
+		return false
+	}
+	v, isC := constInt(fe.fn.Info(), be.Y)
+	return isC && v == 0
 }
